@@ -179,6 +179,7 @@ func loadNonEmpty(ld *ssa.UnOp, depth int) bool {
 }
 
 func runC46(c *Ctx) {
+	c46SvcTables(c)
 	ap := "pkg/addr."
 	pkg := c.Prog.SSAPkgs[modPath+"/pkg/addr"]
 	// P1
